@@ -102,6 +102,15 @@ def pscale(a, c):
     return Poly(dict((k, v * c) for k, v in a.m.items()))
 
 
+class _Position(object):
+    """Environment value of the index variable of a comprehension over 0..n (not a number: only `v[i]` reads it)."""
+    def __repr__(self):
+        return "<position>"
+
+
+POSITION = _Position()
+
+
 class Atom(object):
     __slots__ = ("id", "key", "perstep", "desc", "kind", "parts", "term")
 
@@ -329,6 +338,10 @@ class Algebra(object):
             return self.sx(t.a[1], env)
         if op == "let":
             return self.atom(("let", t.id), False, "let", (t.a[0],), t)
+        if op == "index" and env and isinstance(t.a[1], tm.T) and t.a[1].op == "bv" \
+                and env.get((t.a[1].a[0], t.a[1].a[1])) is POSITION:
+            # v[i] inside a comprehension over 0..n: the per-step element of v
+            return self.pwx(t.a[0], dict((k, v) for k, v in env.items() if v is not POSITION) or None)
         return self.opaque(t, env)
 
     def sxs(self, t, env):
@@ -527,6 +540,14 @@ class Algebra(object):
             return self.pwx(it.a[0], env)
         if op == "zip":
             return (self.pw_iter_s(it.a[0], env), self.pw_iter_s(it.a[1], env))
+        if op == "map" and it.a[0].op == "iter" and it.a[0].a[0].op == "adt" and it.a[0].a[0].a[0] == "Range" \
+                and len(it.a[0].a[0].a) == 4 and it.a[0].a[0].a[2] is tm.ZERO:
+            # (0..n).map(|i| body): the element at a generic position, with `v[i]` the element of v at that position
+            l = it.a[1]
+            level, n, body = l.a
+            e2 = dict(env or {})
+            e2[(level, 0)] = POSITION
+            return self.pwbody(body, e2)
         if op == "map":
             x = self.pw_iter_s(it.a[0], env)
             l = it.a[1]
